@@ -15,10 +15,13 @@ TEMPLATES = [
     {'id': ['ref', 'b', 'dis'], 'v': 5},   # T5
     {'id': ['str', 'a'], 'v': 9},          # T6  duplicate id of T0, other content
     {'id': ['str', '5']},                  # T7  same string form as the int id of T3
+    {'id': ['int', 0], 'v': 1},            # T8  falsy id
+    {'id': ['str', '']},                   # T9  empty id
+    {'id': ['str', 'l'], 'v': ['list']},   # T10 holds a 3.0-only value: refused (ValueError) by a grid declared 2.0
 ]
 BAD_ROWS = {'int': 5, 'none': None, 'pairs': [('a', 1)], 'str': 'row'}
 KEYS = [['str', 'a'], ['str', 'b'], ['str', '5'], ['str', '@a'], ['str', 'zz'], ['ref', 'a', None],
-        ['ref', 'b', 'dis'], ['ref', 'b', None], ['ref', 'zz', None], ['str', '@b']]
+        ['ref', 'b', 'dis'], ['ref', 'b', None], ['ref', 'zz', None], ['str', '@b'], ['str', '0'], ['str', '']]
 
 
 def mk_id(spec):
@@ -35,13 +38,27 @@ def mk_row(t):
         t = TEMPLATES[t]
     r = {}
     for k, v in t.items():
-        r[k] = mk_id(v) if k == 'id' else v
+        r[k] = mk_id(v) if k == 'id' else ([1.0, 'x'] if v == ['list'] else v)
     return r
 
 
-def new_grid():
+def is_v3_row(t):
+    if isinstance(t, int):
+        t = TEMPLATES[t]
+    return isinstance(t, dict) and any(v == ['list'] for v in t.values())
+
+
+def new_grid(auto=False, v2=False):
     import hszinc
-    g = hszinc.Grid(version='3.0')
+    if v2:
+        g = hszinc.Grid(version='2.0')
+    elif auto:
+        # no declared version: a 3.0-only value in a row promotes the grid to 3.0, and slices must carry that
+        g = hszinc.Grid()
+        g.append({'v': [1.0, 'promotes to 3.0']})
+        del g[0]
+    else:
+        g = hszinc.Grid(version='3.0')
     g.metadata['m'] = hszinc.MARKER
     g.metadata['s'] = 'meta'
     g.column['id'] = {}
@@ -58,10 +75,14 @@ class Hist(object):
 
     def __init__(self, case):
         self.case = case
-        self.g = new_grid()
+        self.v2 = bool(case.get('v2', False))
+        self.g = new_grid(case.get('auto', False), self.v2)
         self.l = []
+        self.parents = []       # (grid, list model at the time) of grids we derived from; they must stay intact
         self.flags = set()
         for t in case.get('initial', []):
+            if self.v2 and is_v3_row(t):
+                continue
             r = mk_row(t)
             self.g.append(r)
             self.l.append(r)
@@ -90,6 +111,9 @@ class Hist(object):
         def chk_dict(x):
             if not isinstance(x, dict):
                 raise TypeError('row must be a dict')
+            if self.v2 and any(isinstance(v, list) for v in x.values()):
+                self.flags.add('refused')
+                raise ValueError('3.0-only value in a grid declared 2.0')
 
         if kind in ('append', 'insert', 'setitem'):
             row = BAD_ROWS[op[-1]] if isinstance(op[-1], str) else mk_row(op[-1])
@@ -147,6 +171,7 @@ class Hist(object):
         elif kind == 'slice':
             def rs():
                 s = g[_sl(op[1])]
+                self.parents.append((g, list(l)))
                 self.g = s
             def mslice():
                 self.l = l[_sl(op[1])]
@@ -154,7 +179,9 @@ class Hist(object):
             self.flags.add('derived')
         elif kind == 'filter':
             def rf():
-                self.g = g.filter(op[1])
+                f = g.filter(op[1])
+                self.parents.append((g, list(l)))
+                self.g = f
             def mf():
                 self.l = [r for r in l if 'v' in r]
             real, model = both(rf, mf)
@@ -169,6 +196,20 @@ class Hist(object):
             self.flags.add('mutation-after-derive')
 
     # ---- observations -------------------------------------------------
+    def observe_parents(self, step, mode):
+        """grids we sliced/filtered from are not touched afterwards: they must still look like their list"""
+        cur = (self.g, self.l)
+        try:
+            for pg, pl in self.parents[-2:]:
+                self.g, self.l = pg, pl
+                if mode in ('list', 'both'):
+                    if [id(r) for r in pg] != [id(r) for r in pl]:
+                        self.fail('parent-changed', step, 'a grid that was sliced/filtered from changed afterwards')
+                if mode in ('id', 'both'):
+                    self.observe_ids(step)
+        finally:
+            self.g, self.l = cur
+
     def observe_list(self, step):
         import hszinc
         g, l = self.g, self.l
@@ -261,6 +302,8 @@ def check_history(case, mode, every_step=False):
                 h.observe_list(step)
             if mode in ('id', 'both'):
                 h.observe_ids(step)
+            if h.parents:
+                h.observe_parents(step, mode)
     return h.flags
 
 
@@ -272,20 +315,21 @@ def alphabet(mode):
         ['reverse'], ['clear'], ['slice', [1, None]], ['slice', [0, 1]],
     ]
     if mode == 'list':
-        ops += [['append', 'int'], ['insert', 0, 'none'], ['setitem', 0, 'pairs'], ['extend', [0, 'int']],
+        ops += [['append', 10], ['insert', 0, 10], ['setitem', 0, 10], ['append', 'int'], ['insert', 0, 'none'], ['setitem', 0, 'pairs'], ['extend', [0, 'int']],
                 ['setitem', 7, 0], ['del', 7], ['delslice', [None, None, 2]]]
     else:
-        ops += [['append', 5], ['append', 7], ['filter', 'v'], ['setitem', 0, 4], ['extend', []], ['remove', 3]]
+        ops += [['append', 5], ['append', 7], ['filter', 'v'], ['setitem', 0, 4], ['extend', []], ['remove', 3],
+                ['slice', [None, None]], ['append', 8], ['setitem', 0, 9]]
     return ops
 
 
-def enumerate_histories(mode, initial, depth, shard, of):
+def enumerate_histories(mode, initial, depth, shard, of, auto=False, v2=False):
     al = alphabet(mode)
     for i, first in enumerate(al):
         if i % of != shard:
             continue
         for rest in itertools.product(al, repeat=depth - 1):
-            yield {'initial': initial, 'ops': [first] + list(rest)}
+            yield {'initial': initial, 'auto': auto, 'v2': v2, 'ops': [first] + list(rest)}
 
 
 def history_strategy(mode):
@@ -308,4 +352,5 @@ def history_strategy(mode):
                 st.tuples(st.lists(t, max_size=2), bad).map(lambda p: ['extend', p[0] + [p[1]]])]
     if mode in ('id', 'both'):
         ops += [st.just(['filter', 'v'])]
-    return st.fixed_dictionaries({'initial': st.lists(t, max_size=4), 'ops': st.lists(st.one_of(*ops), min_size=1, max_size=50)})
+    return st.fixed_dictionaries({'initial': st.lists(t, max_size=4), 'auto': st.booleans(), 'v2': st.booleans(),
+                                  'ops': st.lists(st.one_of(*ops), min_size=1, max_size=50)})
